@@ -120,19 +120,24 @@ static void Tuple_Assign(var self, var obj) {
     }
 #endif
     
-    t->items = realloc(t->items, sizeof(var) * (nargs+1));
+    /* The new items are collected first and put in place at the end: get may
+    ** refuse (a source whose get takes keys, not positions), and the source
+    ** may be this Tuple itself or a view of it */
+    var* items = malloc(sizeof(var) * (nargs+1));
     
 #if CELLO_MEMORY_CHECK == 1
-    if (t->items is NULL) {
+    if (items is NULL) {
       throw(OutOfMemoryError, "Cannot allocate Tuple, out of memory!");
     }
 #endif
     
     for (size_t i = 0; i < nargs; i++) {
-      t->items[i] = get(obj, $I(i));
+      items[i] = get(obj, $I(i));
     }
     
-    t->items[nargs] = Terminal;
+    items[nargs] = Terminal;
+    free(t->items);
+    t->items = items;
   
   } else {
     
